@@ -164,7 +164,17 @@ def projected_attrs(elname):
     return [a for a in attrs_of(elname) if a.name not in ("name", "class") and not a.facets.get("nodefault")]
 
 
+_EDGES = None
+
+
 def edges():
+    global _EDGES
+    if _EDGES is None:
+        _EDGES = _edges()
+    return _EDGES
+
+
+def _edges():
     """All (parent element, child element, card, context) edges of the schema graph reachable from
     <mujoco>; context 'default' below <default> (projected rows), else 'main'.  Aliases
     (worldbody/frame/replicate) are ordinary elements here."""
@@ -274,8 +284,14 @@ SECTION_ORDER = ["compiler", "option", "size", "statistic", "visual", "default",
                  "worldbody", "deformable", "contact", "tendon", "equality", "actuator", "sensor", "keyframe"]
 
 
+_UNI = None
+
+
 def universe():
-    return parse(UNIVERSE)
+    global _UNI
+    if _UNI is None:
+        _UNI = parse(UNIVERSE)
+    return _UNI.clone()
 
 
 def section(doc, tag):
@@ -443,7 +459,17 @@ ALIAS_WRAP = {
 DEFAULT_BASE = {"dcmotor": [("motorconst", "0.05"), ("resistance", "2")]}
 
 
+_CP = {}
+
+
 def canonical_parent(child, ctx):
+    k = (child, ctx)
+    if k not in _CP:
+        _CP[k] = _canonical_parent(child, ctx)
+    return _CP[k]
+
+
+def _canonical_parent(child, ctx):
     """Parent through which `child` is reached in context ctx: 'body' if possible, else the first
     non-alias parent in schema order."""
     ps = [p for p, c, card, x in edges() if c == child and x == ctx]
